@@ -107,11 +107,11 @@ class Interp:
         if k == "lit":
             return it[1]
         if k == "param":
-            if it[1] in env:
-                return env[it[1]]
+            if it[1].strip() in env:  # the name is looked up trimmed ...
+                return env[it[1].strip()]
             if it[2] is not None:
                 return self.value(it[2], env)
-            return "{{{%s}}}" % it[1]
+            return "{{{%s}}}" % it[1]  # ... and an unbound parameter stays as it was written
         if k == "call":
             new = {}
             pos = 0
